@@ -6,9 +6,14 @@
              chain (or nil) FindConversionChain returned for each.
    CHandler: one rule set registered by real hooks, one ConversionReview posted to the real
              router/handler wired to the real conversionEventHandler: the chain the hook
-             manager answers for (src,desired), the scripted outcome of the k-th hook run,
+             manager answers for (src,desired), the scripted outcome of the k-th hook run
+             (a failedMessage is the byte string the hook's response file denotes),
              the hook runs observed (rule of the hook that ran, objects it received) and the
-             answer.
+             answer: result.status with the converted objects, or the bytes of
+             result.message.  [dtext] is desiredAPIVersion as the request spelt it (the
+             operator's own messages quote it).  No message is classified by the harness:
+             every text is compared byte for byte with the model's (C15_Model.serve) and the
+             relayed hook message is judged by the Spec.
    CCrash:   the implementation panicked / the harness could not observe.
 
    Because Go iterates maps, WHICH valid chain is returned is not determined: chains are
@@ -19,13 +24,13 @@ From Verif Require Import Common C15_Model C15_Spec.
 
 Inductive case :=
 | CSearch (rules : list rule) (shared : bool) (qs : list rule) (answers : list (option (list rule)))
-| CHandler (rules : list rule) (src desired : version) (chain : option (list rule))
-           (req : list obj) (outs : list outcome) (trace : list invocation) (ans : answer)
+| CHandler (rules : list rule) (src desired : version) (dtext : bytes) (chain : option (list rule))
+           (req : list obj) (outs : list outcome) (trace : list invocation) (ans : review)
 | CCrash.
 
 Inductive mobs :=
 | MSearch (found : list bool)
-| MHandler (found : bool) (trace : list invocation) (ans : answer)
+| MHandler (found : bool) (trace : list invocation) (ans : review)
 | MCrash.
 
 Definition is_some {A} (o : option A) : bool := match o with Some _ => true | None => false end.
@@ -35,24 +40,24 @@ Definition model_obs (c : case) : mobs :=
   match c with
   | CSearch rules shared qs _ =>
     MSearch (map is_some (if shared then find_shared rules (base_cache rules) qs else find_fresh rules qs))
-  | CHandler rules src desired chain req outs _ _ =>
-    let '(t, a) := convert desired (chain_of chain) outs req in
+  | CHandler rules src desired dtext chain req outs _ _ =>
+    let '(t, a) := serve dtext desired (chain_of chain) outs req in
     MHandler (is_some (snd (find rules (base_cache rules) (src, desired)))) t a
   | CCrash => MCrash
   end.
 
 Definition inv_eqb (a b : invocation) : bool := rule_eqb (fst a) (fst b) && objs_eqb (snd a) (snd b).
-Definition answer_eqb (a b : answer) : bool :=
+Definition answer_eqb (a b : review) : bool :=
   match a, b with
-  | Success x, Success y => objs_eqb x y
-  | Failed m, Failed m' => fmsg_eqb m m'
+  | RSuccess x, RSuccess y => objs_eqb x y
+  | RFailure m, RFailure m' => bytes_eqb m m'
   | _, _ => false
   end.
 
 Definition agrees (c : case) : bool :=
   match c, model_obs c with
   | CSearch _ _ _ answers, MSearch found => list_eqb Bool.eqb found (map is_some answers)
-  | CHandler _ _ _ chain _ _ trace ans, MHandler found t a =>
+  | CHandler _ _ _ _ chain _ _ trace ans, MHandler found t a =>
     Bool.eqb found (is_some chain) && list_eqb inv_eqb t trace && answer_eqb a ans
   | _, _ => false
   end.
@@ -60,7 +65,7 @@ Definition agrees (c : case) : bool :=
 Definition P (c : case) : bool :=
   match c with
   | CSearch rules _ qs answers => all_P_search rules qs answers
-  | CHandler rules src desired chain req outs trace ans =>
+  | CHandler rules src desired _ chain req outs trace ans =>
     P_search rules src desired chain && P_handler desired (chain_of chain) outs req trace ans
   | CCrash => false
   end.
@@ -80,9 +85,9 @@ Definition chain_at (rules : list rule) (ix : list N) : option (list rule) :=
 Definition o (id c : N) : obj := (id, v c).
 Definition CS (rules : list rule) (shared : bool) (qs : list rule) (answers : list (list N)) : case :=
   CSearch rules shared qs (map (chain_at rules) answers).
-Definition CH (rules : list rule) (src desired : N) (chain : list N) (req : list obj) (outs : list outcome)
-           (trace : list (N * list obj)) (ans : answer) : case :=
-  CHandler rules (v src) (v desired) (chain_at rules chain) req outs
+Definition CH (rules : list rule) (src desired : N) (dtext : bytes) (chain : list N) (req : list obj) (outs : list outcome)
+           (trace : list (N * list obj)) (ans : review) : case :=
+  CHandler rules (v src) (v desired) dtext (chain_at rules chain) req outs
            (map (fun t => (nth (N.to_nat (fst t)) rules bogus_rule, snd t)) trace) ans.
 
 Definition mismatches (cs : list case) : list N := indices_where (fun c => negb (agrees c)) cs.
